@@ -195,6 +195,33 @@ Theorem C04_refuted_form_not_implemented : exists w, refutes id_not_implemented 
 Proof. exact (ex_intro _ _ refuted_not_implemented). Qed.
 Print Assumptions C04_refuted_form_not_implemented.
 
+(* ---- F. ... and satisfies it everywhere else ---- *)
+(* C04_holds: for every kind, shape, statement and both models of mech (the tree as it is / with the
+   proposed repairs): if the statement is in no known-finding class, the faithful model of mech does
+   exactly what the property demands (new contents on success; error and unchanged otherwise). *)
+Theorem C04_holds : forall fx k x s,
+  wf_mat x -> 1 <= mrows x -> 1 <= mcols x ->
+  kf_class fx k x s = None ->
+  match spec_step k x s with
+  | OkNew d => mech_step fx k x s = Some (true, map Some d)
+  | MustErr => mech_step fx k x s = Some (false, map Some (mdata x))
+  | NotFixed _ => True
+  end.
+Proof. exact mech_holds. Qed.
+Print Assumptions C04_holds.
+
+(* the core of it: wherever the property fixes the outcome and the statement has none of the structurally
+   defective forms, the model of mech is defined, and whenever its kernel loop runs to completion the
+   variable holds exactly the property's result (so the only other deviations are refusals and partial writes) *)
+Theorem C04_model_success_is_correct : forall fx k x s,
+  wf_mat x -> 1 <= mrows x -> 1 <= mcols x ->
+  fixed (spec_step k x s) ->
+  (forall o t src, s = SAsg o t src -> kf_structural fx k o t src (mrows x * mcols x) = None) ->
+  exists fin pat, mech_step fx k x s = Some (fin, pat) /\
+    (fin = true -> exists d, spec_step k x s = OkNew d /\ pat = map Some d).
+Proof. exact mech_model_correct. Qed.
+Print Assumptions C04_model_success_is_correct.
+
 (* ---- non-vacuity ---- *)
 Example C04_example :
   (* ~x := [1 2 3; 4 5 6] (i64); x[2,[1 3]] = 9 ; x[[1 4]] += [10 20] *)
